@@ -74,7 +74,7 @@ def putRes : Res → Json
   | .ok => "ok"
   | .reject => "reject"
 
-def getOp (name : String) (j : Json) : R Op := do
+private def getOp (name : String) (j : Json) : R Op := do
   match name with
   | "reset" => pure .reset
   | "read" => pure .read
